@@ -34,8 +34,14 @@ RULE = ("cases: 1-3 sites of dimension 2-3; Hamiltonian = 0-4 tensor-product ter
         "operator or a non-symmetric Hamiltonian factor")
 PARTIAL = ["the property is false of the code (open finding F-C15, theorem anticomm_bra_sign_witness): "
            "what is checked is generated == GKSL + i*sum_k gamma_k 1 (x) (L_k^dagger L_k)^T exactly",
-           "the Lean theorems are about the symbolic term lists; the step from term lists to matrices "
-           "(Kronecker denotation) is decided by the dense oracle only (per-site label soundness is proved)",
+           "the matrix denotation (theorem lindblad_denote_eq: n-site Kronecker product over an arbitrary finite "
+           "family of sites) is proved relative to the hypotheses `Fits`: the final conversion_dictionary gives "
+           "the derived labels (_T, _conj, _H, _mult_) their values, the flags are sound, '<sym>*j' maps to "
+           "i*rate, ket/bra identifiers are disjoint; that the *values* stored by the code meet these "
+           "hypotheses, and that numpy.kron over the sorted site list is the n-site Kronecker product, is "
+           "decided by the dense oracle only",
+           "exp(-itL) itself is not formalised: trace preservation is proved at generator level "
+           "(vec(1)^T L = 0, theorem gksl_trace_preserving); Hermiticity preservation is oracle-only",
            "the numerical classification (issymmetric / isreal / ishermitian / allclose(eye)) is an input of "
            "the model; the harness recomputes it exactly on matrices with entries in (Z+iZ)/2"]
 ASSUMPTIONS = ["every label used by a term is a key of the corresponding dictionary (otherwise KeyError); "
@@ -375,6 +381,40 @@ def taylor_expm(A):
     return acc
 
 
+def dictionary_problems(lind, mats, jcm, flags_of):
+    """The hypotheses of the denotation theorem on the values the code stored: every derived label
+    carries its intended value (X_T = X^T, X_conj = conj X, X_H = X^dagger, A_mult_B = A B), every base
+    label the caller's matrix, and '<sym>*j' = i * rate."""
+    conv = lind.conversion_dictionary
+    out = []
+
+    def want(label):
+        if label.endswith("_T"):
+            b = want(label[:-2])
+            return None if b is None else b.T
+        if label.endswith("_conj"):
+            b = want(label[:-5])
+            return None if b is None else b.conj()
+        if "_mult_" in label:
+            l, r = label.split("_mult_", 1)
+            a, b = want(l), want(r)
+            return None if a is None or b is None else a @ b
+        if label.endswith("_H"):
+            b = want(label[:-2])
+            return None if b is None else b.conj().T
+        return mats.get(label)
+    for k, v in conv.items():
+        w = want(k)
+        if w is None:
+            out.append(f"unexpected key {k!r}")
+        elif np.shape(v) != w.shape or not np.array_equal(np.asarray(v), w):
+            out.append(f"{k!r} does not hold the value its name promises")
+    for k, v in jcm.items():
+        if (k + "*j") not in lind.coeffs_mapping or lind.coeffs_mapping[k + "*j"] != 1j * v:
+            out.append(f"coeffs_mapping[{k + '*j'!r}] is not i*rate")
+    return out
+
+
 # ------------------------------------------------------------------ run
 
 def run(ctx):
@@ -449,6 +489,13 @@ def run_case(ctx, case, model_out=None):
         ic = sorted(lind.coeffs_mapping)
         if ic != pm[2]:
             ctx.corr_fail(case, f"coeffs_mapping keys: impl {ic} model {pm[2]}")
+
+    # ------------- hypotheses `Fits` of theorem lindblad_denote_eq, validated on this live call
+    bad = dictionary_problems(lind, mats, jcm, flags_of)
+    if bad:
+        ctx.oracle_fail(case, "conversion_dictionary / coeffs_mapping values: " + "; ".join(bad[:4]))
+    else:
+        ctx.hyp_validated += 1
 
     # ------------- stage C
     dims2 = {}
